@@ -105,6 +105,9 @@ func runC11(c *core.Ctx, crashes bool) {
 			case !shouldForward && refusal == nil:
 				c.Violate("C11/refused-without-error-ack", "%s refused %s but recorded no acknowledgement", n.Name, k)
 			}
+			if refusal != nil && fwd == nil && n.HasCommitment(k.Src, k.Dst, k.Seq) {
+				c.Violate("C11/refused-but-committed", "%s refused %s with an error acknowledgement but holds a forwarding commitment for it", n.Name, k)
+			}
 			if refusal != nil {
 				refusedByRelay++
 				w.Stats.Inc("probe-relay-refusal")
